@@ -185,6 +185,13 @@ fn file_set(now: u64) -> Vec<FileRec> {
     vec![b.with_name("a"), b.with_name("b"), b.with_name("foo.c"), b.with_name("A")]
 }
 
+fn has_clear(e: &E) -> bool {
+    e.leaves().iter().any(|l| match l {
+        E::A(Act::Printf(f)) | E::A(Act::FPrintf(_, f)) => f.iter().any(|x| matches!(x, FEl::E(Esc::Clear))),
+        _ => false,
+    })
+}
+
 pub fn judge(c: &Case) -> (Verdict, u64, u64) {
     let comp = match policy::compile_tree(&c.tree, c.threads, "/") {
         CompileOutcome::Ok(c) => c,
@@ -219,6 +226,30 @@ pub fn judge(c: &Case) -> (Verdict, u64, u64) {
             steps_of(&fr.events, framed, &mut units, &mut steps);
         }
         threads.push(steps);
+    }
+    // plain mode: what arrives on the standard output must split into whole terminated lines, so
+    // every record written there ends with the line terminator (a format cut short by `\c` is the
+    // user's own request for an unterminated record and is left out)
+    if !framed && !has_clear(&c.tree) {
+        for fs in &c.assignment {
+            for fi in fs {
+                let fr = &run.world.runs[*fi as usize % files.len()];
+                for ev in &fr.events {
+                    let (port, bytes) = match ev {
+                        Event::Record { port, payload, term, .. } => (*port, format!("{payload}{}", term.map(|t| t.to_string()).unwrap_or_default())),
+                        Event::Raw { port, text } => (*port, text.clone()),
+                        _ => continue,
+                    };
+                    if matches!(run.world.ports.get(port), Some(crate::interp::PortKind::Stdout)) && !bytes.is_empty() && !bytes.ends_with('\n') {
+                        return (
+                            Verdict::Fail(format!("{:?}: plain (unframed) mode, yet a record written to the shared standard output does not end with a line terminator: {bytes:?} - the stream of several threads cannot be split back into whole lines\nprogram:\n{}", c.tree, comp.text)),
+                            0,
+                            0,
+                        );
+                    }
+                }
+            }
+        }
     }
     let total_steps: usize = threads.iter().map(|t| t.len()).sum();
     let writers = threads.iter().filter(|t| t.iter().any(|s| matches!(s, Step::Write { .. }))).count();
@@ -263,6 +294,9 @@ pub fn run(ctx: &Ctx) -> Report {
             2 => Just(Act::Printf(vec![FEl::F(Fld::Basename)])),
             2 => Just(Act::Printf(vec![FEl::Lit("skipped".into()), FEl::E(Esc::Newline)])),
             1 => Just(Act::Printf(vec![FEl::Lit("no newline".into())])),
+            // hand-built octal escapes as last element: only code 10 written as the newline escape ends a line
+            1 => prop_oneof![prop::sample::select(vec![0o012u16, 0o412, 0o1012, 0o2012, 0o7012, 0x010a, 0x0a0a, 0xff0a, 0o1156, 0x2028, 0x85]), 1u16..0xd7ff]
+                .prop_map(|c| Act::Printf(vec![FEl::F(Fld::Basename), FEl::E(Esc::Ascii(c))])),
             2 => prop::sample::select(vec!["a", "b"]).prop_map(|f| Act::FPrint(f.to_string())),
             1 => prop::sample::select(vec!["a", "b"]).prop_map(|f| Act::FPrint0(f.to_string())),
             1 => Just(Act::PrintFid),
@@ -312,7 +346,7 @@ pub fn run(ctx: &Ctx) -> Report {
     total.extra.insert("transitions".into(), json!(transitions.load(std::sync::atomic::Ordering::Relaxed)));
     Report {
         stats: total,
-        rule: "programs with 1..3 printers (plain: stdout printers with different terminators and runtime-direct printers; framed: any mix), 2..3 threads each running the policy on 1..2 files, compiled without and with a -threads option (0, 1, 2, random); configurations whose emitted scan call asks for exactly one thread are not explored. The emitted printer procedures are executed by the runtime model into atomic steps Lock m / Write port / Unlock m (a frame is the run of writes up to separator+tag; a runtime printer writes payload then terminator under its mutex); the harness owns the schedule and explores ALL interleavings of every generated configuration by breadth-first search over (program counters, open record per port) with blocking mutex semantics. Oracle: no reachable state in which a thread writes to a port while another thread's record on that port is incomplete (so the stream always splits into whole frames / whole terminated records with the emitted multiset), and no reachable state with unfinished threads all blocked (deadlock). Non-trivial: >=2 threads write and some thread was blocked on a held mutex or >=2 records were emitted. Distinct: by (tree, thread->files assignment).".into(),
+        rule: "programs with 1..3 printers (plain: stdout printers with different terminators and runtime-direct printers; framed: any mix), 2..3 threads each running the policy on 1..2 files, compiled without and with a -threads option (0, 1, 2, random); configurations whose emitted scan call asks for exactly one thread are not explored. The emitted printer procedures are executed by the runtime model into atomic steps Lock m / Write port / Unlock m (a frame is the run of writes up to separator+tag; a runtime printer writes payload then terminator under its mutex); the harness owns the schedule and explores ALL interleavings of every generated configuration by breadth-first search over (program counters, open record per port) with blocking mutex semantics. Oracle: no reachable state in which a thread writes to a port while another thread's record on that port is incomplete (so the stream always splits into whole frames / whole terminated records with the emitted multiset), and no reachable state with unfinished threads all blocked (deadlock); in plain mode, additionally, every record written to the shared standard output ends with the line terminator (otherwise the stream cannot be split back into whole terminated lines) - formats cut short by \\c are left out of this last clause; the formatted prints include hand-built octal escapes up to 0xd7ff as last element. Non-trivial: >=2 threads write and some thread was blocked on a held mutex or >=2 records were emitted. Distinct: by (tree, thread->files assignment).".into(),
         assumptions: {
             let mut a = crate::checks::c02::runtime_assumptions();
             a.push("not covered: fairness/liveness of the real Guile scheduler, and write atomicity inside the real runtime (a single display / runtime-direct print is one atomic write)".into());
